@@ -13,7 +13,9 @@ RULE = ("case = generated hierarchy (nested lists of components, lists of ports/
         "are first touched); invariant after every elaboration: unique repr, eval(repr(o)) is o, parent/host/level/"
         "top-level-signal metadata agree with the name, identical name sets for all orderings and for a second "
         "elaboration of freshly constructed objects (30%: hierarchy-only family with interfaces, n-d lists, method "
-        "ports, stdlib queue pipelines and tiles whose connects make the stdlib insert numbered adapter components); non-trivial = >=30 named objects incl. >=1 lazily created "
+        "ports, stdlib queue pipelines, tiles whose connects make the stdlib insert numbered adapter components, "
+        "subclasses adding decorated methods - every method a class body decorates must be the named child "
+        "<component>.<method>); non-trivial = >=30 named objects incl. >=1 lazily created "
         "slice/field signal and >=1 component list; distinct = case digest. The program dimension is plain "
         "generation; what the simulator adds is the order dimension (DESIGN.md C14).")
 TIERS = {"quick": {"runs": 960, "budget_s": 100, "chunk": 4},
